@@ -172,7 +172,8 @@ structure Clock where
 
 def showTime (ck : Clock) (t : Int) : String :=
   if t == 0 then ""
-  else if ck.nows.contains t then "T"
+  -- a server stamp names the request that took it (`now` of request j is the waited time + j)
+  else if ck.nows.contains t then s!"T{(t - B0) % 1000000}"
   else
     let d := t - B0
     if decide (d > -1000000000000000) && decide (d < 1000000000000000) then s!"b{d}" else s!"a{t}"
@@ -282,6 +283,10 @@ def tick (cfg : Cfg) (s : State) : State :=
         filed := i.filed ++ (i.waiting.filter fun k => (AL.find k i.recs).isSome && !i.filed.contains k),
         waiting := [] } }
 
+/-- keys the file format can hold: not empty, at most 65535 bytes (`x@N` stands for N letters x) -/
+def storable (k : Key) : Bool :=
+  k != "" && !(k.startsWith "x@" && ((k.drop 2).toNat?.getD 0) ≥ 65536)
+
 def kindOf (s : String) : Kind := if s.startsWith "mem" then .mem else if s.startsWith "p0" then .p0 else .p1
 
 def stepReq (d : DState) (f : List String) : DState × String :=
@@ -327,11 +332,18 @@ def stepLine (d : DState) (line : String) : DState × String :=
         if d.s.dead then (d, "skip")
         else
           let before := Model.abs d.s
-          let (s', tags) := Model.closeStep d.cfg d.s
+          let (s1, tags) := Model.closeStep d.cfg d.s
+          -- the writer refuses entries whose key the format cannot hold (logged, not reported to the
+          -- client): they are not in the file.  Outside the Lean model, whose theorems are about
+          -- storable keys; reported as its own finding.
+          let lost := d.s.kind != .mem && ((s1.file.getD []).any fun p => !storable p.1)
+          let s' := if lost then { s1 with file := s1.file.map (·.filter fun p => storable p.1) } else s1
           let after := Model.abs s'
           let dev := d.pol == .c05 && decide (Spec.close d.s.kind before ≠ after)
           let tag := tags.head? <|> d.lastTag
-          let flag := if dev then "\t#F:" ++ d.pid ++ "-" ++ (match tag with | some t => tagId t | none => "unattributed") else ""
+          let flag := if dev then "\t#F:" ++ d.pid ++ "-" ++
+                        (if lost then "unstorable-key-acknowledged"
+                         else match tag with | some t => tagId t | none => "unattributed") else ""
           ({ d with s := s', lastTag := (tags.head? <|> d.lastTag) }, "ok" ++ flag)
       else if verb == "compact" then
         -- CompactSwamp: refuses a swamp that does not exist, otherwise summons it and rewrites its
